@@ -21,6 +21,8 @@ struct sStrComp;
 
 extern void DecodeMotoBYT(Word Code);
 extern void DecodeMotoADR(Word Code);
+
+extern void DecodeMotoADRLittle(Word Code);
 extern void DecodeMotoDFS(Word Code);
 
 extern Boolean DecodeMotoPseudo(Boolean Turn);
